@@ -181,6 +181,91 @@ def check_stack_lower_bound(ctx, prog):
                    root.loc)
 
 
+def _const_of(f, op):
+    """(named constant or integer) a call argument is built from"""
+    out = set()
+    for o in flow.origins(f, op):
+        if o.kind == "const":
+            out.add(o.const.get("named") or o.const.get("int"))
+        elif o.kind == "bin":
+            for side in ("a", "b"):
+                for o2 in flow.origins(f, o.rv[side]):
+                    if o2.kind == "const":
+                        out.add(o2.const.get("named") or o2.const.get("int"))
+                    elif o2.kind == "call":
+                        out.add("call:" + o2.call.name.split("::")[-1])
+        elif o.kind == "call":
+            out.add("call:" + o.call.name.split("::")[-1])
+    return out
+
+
+def check_depth_accounting(ctx, prog, tag):
+    CTX = "minijinja::vm::context::Context"
+    writers = {}
+    for f, bb, w, pl in query.field_accessors(prog, CTX, "outer_stack_depth"):
+        if w:
+            writers.setdefault(f.path, []).append((f, bb))
+    ctx.floor("C11.R6 writers of the inherited depth counter" + tag, len(writers), 2)
+    absolute = []
+    for path, sites in sorted(writers.items()):
+        f = sites[0][0]
+        for d in flow.stores(f):
+            if "outer_stack_depth" not in flow._proj_names(d.place) or d.rv is None:
+                continue
+            kind = "other"
+            detail = ""
+            srcs = flow.origins(f, d.rv["op"]) if d.rv["k"] == "use" else [flow.Origin(d.rv["k"], rv=d.rv)]
+            for o in srcs:
+                if o.kind == "const" and o.const.get("int") == "0":
+                    kind = "reset"
+                elif o.kind == "bin" and o.rv["op"].startswith(("Add", "Sub")):
+                    a = flow.origins(f, o.rv["a"])
+                    b = flow.origins(f, o.rv["b"])
+                    self_a = any("outer_stack_depth" in x.proj for x in a)
+                    self_b = any("outer_stack_depth" in x.proj for x in b)
+                    if self_a or (self_b and o.rv["op"].startswith("Add")):
+                        kind = "incremental"
+                    elif o.rv["op"].startswith("Sub") and any(x.kind == "arg" and not x.proj for x in a) and any(
+                            x.kind == "call" and x.call.name.endswith("::len") for x in b):
+                        kind = "absolute"
+                        absolute.append((f, [x.arg for x in a if x.kind == "arg"][0]))
+                    detail = "%s(%r, %r)" % (o.rv["op"], a, b)
+            ctx.ob("C11.R6.depth-counter-written-incrementally-or-checkpointed", "%s%s|%s" % (tag, path, kind),
+                   kind in ("reset", "incremental", "absolute"),
+                   "the inherited depth counter is overwritten with a value that is neither `old ± delta`, 0, nor a "
+                   "checkpoint minus the frame count: %s" % detail, f.where(d.bb))
+    # absolute restores: the checkpoint must be Context::depth() taken before the charge
+    for f, argn in absolute:
+        for c in prog.calls_of(f.path):
+            g = c.fn
+            srcs = flow.origins(g, c.args[argn - 1])
+            ok = bool(srcs) and all(o.kind == "call" and o.call.name == DEPTH for o in srcs)
+            before = ok and all(any(cfg.dominates(g, o.call.bb, k.bb) for k in g.calls() if k.name in (INCR, PUSH)) for o in srcs)
+            ctx.ob("C11.R6.restored-checkpoint-is-the-full-depth", "%s%s|%s" % (tag, g.path, f.path.split("::")[-1]), ok and before,
+                   "the value restored into the depth counter comes from %s, not from Context::depth() read before the "
+                   "charge: finishing this nested evaluation resets the depth inherited from enclosing includes / macro "
+                   "callers" % sorted({(o.call.name.split("::")[-1] if o.kind == "call" else o.kind) for o in srcs}),
+                   g.where(c.bb))
+    # incremental decrements give back the constant that was charged
+    DECR = "minijinja::vm::context::Context::decr_depth"
+    n = 0
+    for c in prog.calls_of(DECR):
+        g = c.fn
+        n += 1
+        amt = _const_of(g, c.args[1])
+        charged = set()
+        host = prog.fns.get(g.root) if g.kind == "closure" else g
+        for h in [g] + ([host] if host is not None and host is not g else []):
+            for k in h.calls():
+                if k.name == INCR:
+                    charged |= _const_of(h, k.args[1])
+        ctx.ob("C11.R6.decrement-matches-charge", "%s%s" % (tag, g.path), bool(amt) and amt <= charged,
+               "decr_depth(%s) does not give back what incr_depth charged (%s)" % (sorted(map(str, amt)), sorted(map(str, charged))),
+               g.where(c.bb))
+    if prog.has_fn(DECR):
+        ctx.floor("C11.R6 decr_depth call sites" + tag, n, 1)
+
+
 def run(ctx):
     ctx.explain("C11: must-pass-through rule (a propagated depth charge dominates every re-entry into the "
                 "interpreter), structure of push_frame/incr_depth/check_depth, reviewed cost constants and the "
@@ -334,6 +419,9 @@ def run(ctx):
             if w:
                 ctx.ob("C11.R2.context-limit-written-only-at-construction", tag + f.path,
                        f.path == "minijinja::vm::context::Context::new", "", f.where(bb))
+
+        # R6: depth accounting gives back exactly what was charged
+        check_depth_accounting(ctx, prog, tag)
 
         # R3
         g = callgraph.get(prog)
